@@ -13,6 +13,12 @@ def cfg_hook(rng, cfg, fam, i):
     # emphasise tiny / huge caches and dedicated-SRAM spilling
     if i % 3 == 0:
         cfg["cache"] = int(rng.choice([2048, 4096, 8192, 16384, 32768, 65536]))
+    if fam == "stripe-resize" and i % 2:
+        # dedicated-SRAM systems keep small feature maps in the (small) fast-scratch region: tile bases just behind a tensor leave the region quickly
+        cfg["acc"] = str(rng.choice(["ethos-u65-256", "ethos-u65-512"]))
+        cfg["mode"] = None
+        cfg["allocator"] = "Greedy"
+        cfg["cache"] = None
     if fam == "shared-weights":
         # shared filters with their own scale tensors matter when the weights are streamed through SRAM buffers
         cfg["optimise"] = "Performance"
